@@ -553,3 +553,52 @@ pub fn same_context(kind: usize, rng: &mut Rng, g: &TermGen, x: &Term, y: &Term)
     let b = compound_of(kind, idx, &v)?;
     Some((a, b))
 }
+
+// ------------------------------------------------------------------------------------------
+// Deeply nested terms (C07 over histories): built ITERATIVELY, from the leaf outwards, so that building them needs no
+// deep recursion; `shape` selects which constructors form the spine (a single one, or a rotation of all spine-capable ones)
+
+/// number of spine shapes of `deep_term`
+pub const DEEP_SHAPES: usize = 10;
+
+/// a term nested `levels` deep around one word leaf: shape 0 negations, 1 products `(*, Li, inner)`, 2 extension sets
+/// `{inner, Li}`, 3 inheritances `<Li --> inner>`, 4 similarities (symmetric), 5 sequential conjunctions, 6 images,
+/// 7 conjunctions (unordered) with the inner term alone, 8 equivalences / predictive implications alternately,
+/// 9 a rotation of all of these.  Equal arguments give equal terms.
+pub fn deep_term(shape: usize, levels: usize, salt: &str) -> Term {
+    deep_term_spelled(shape, levels, salt, false)
+}
+
+/// `deep_term`, with `flip`: an EQUAL term spelled differently (operands of the symmetric statements exchanged, set elements
+/// given in the other order, the side element of a set given twice).  (`rebuild` is not usable on deep set spines: it
+/// re-inserts a rebuilt copy of a set element with probability 1/3 per level.)
+pub fn deep_term_spelled(shape: usize, levels: usize, salt: &str, flip: bool) -> Term {
+    let mut term = Term::new_word(format!("leaf{}", salt));
+    for i in (0..levels).rev() {
+        let side = || Term::new_word(format!("L{}{}", salt, i % 5));
+        let bx = Box::new;
+        let s = if shape % DEEP_SHAPES == 9 { i % 9 } else { shape % DEEP_SHAPES };
+        term = match s {
+            0 => Term::Negation(bx(term)),
+            1 => Term::Product(vec![side(), term]),
+            2 if flip => Term::new_set_extension(vec![side(), term, side()]),
+            2 => Term::new_set_extension(vec![term, side()]),
+            3 => Term::Inheritance(bx(side()), bx(term)),
+            4 if flip => Term::Similarity(bx(side()), bx(term)),
+            4 => Term::Similarity(bx(term), bx(side())),
+            5 => Term::ConjunctionSequential(vec![term, side(), Term::new_interval(i)]),
+            6 => Term::ImageExtension(i % 3, vec![side(), term, side()]),
+            7 => Term::new_conjunction(vec![term]),
+            _ => {
+                if i % 2 == 0 && flip {
+                    Term::Equivalence(bx(side()), bx(term))
+                } else if i % 2 == 0 {
+                    Term::Equivalence(bx(term), bx(side()))
+                } else {
+                    Term::ImplicationPredictive(bx(side()), bx(term))
+                }
+            }
+        };
+    }
+    term
+}
